@@ -69,6 +69,13 @@ def gen_should_close() -> str:
         if isinstance(n, ast.BoolOp) and isinstance(n.op, ast.And):
             if [ast.unparse(x) for x in n.values] == ["self._payload is not None", "not self._payload.is_eof()"]:
                 return "pay_open"
+            if [ast.unparse(x) for x in n.values] == ["self._parser is not None", "self._parser.has_unparsed_data()"]:
+                # http_parser.HttpParser.has_unparsed_data must be exactly `bool(self._tail or self._lines)`
+                hf = core.find_function("aiohttp/http_parser.py", "has_unparsed_data", cls="HttpParser")
+                hb = [st for st in hf.body if not (isinstance(st, ast.Expr) and isinstance(st.value, ast.Constant))]
+                if len(hb) != 1 or not isinstance(hb[0], ast.Return) or ast.unparse(hb[0].value) != "bool(self._tail or self._lines)":
+                    raise TranslatorError("has_unparsed_data: expected `return bool(self._tail or self._lines)`")
+                return "pleft"
             raise TranslatorError(f"should_close: unrecognised conjunction `{ast.unparse(n)}`")
         if isinstance(n, ast.BoolOp) and isinstance(n.op, ast.Or):
             return "(" + " || ".join(tr(x) for x in n.values) + ")"
@@ -77,8 +84,9 @@ def gen_should_close() -> str:
             return atoms[t]
         raise TranslatorError(f"should_close: unrecognised operand `{t}`")
     return ("(* client_proto.ResponseHandler.should_close; pay_open = _payload is not None and not _payload.is_eof();\n"
-            "   pparser = a WebSocket payload parser is installed; buf/tail = _buffer/_tail non-empty *)\n"
-            f"Definition should_close_gen (sc pay_open upg exc pparser buf tail : bool) : bool :=\n  {tr(v)}.\n")
+            "   pparser = a WebSocket payload parser is installed; buf/tail = _buffer/_tail non-empty;\n"
+            "   pleft = the HTTP parser exists and buffers an incomplete line / head block (_tail or _lines) *)\n"
+            f"Definition should_close_gen (sc pay_open upg exc pparser buf tail pleft : bool) : bool :=\n  {tr(v)}.\n")
 
 
 def gen_is_connected() -> str:
